@@ -66,7 +66,9 @@ def to_ba(it, x, what='bits'):
         if isinstance(x.v, (list, tuple)):
             return BA([Seg(len(x.v), 'k', ''.join('1' if b else '0' for b in x.v))])
         if isinstance(x.v, int) and not isinstance(x.v, bool):
-            return BA([Seg(x.v, 'k', '0' * x.v)])     # bitarray(n): n uninitialised (zero) bits
+            if x.v < 0:
+                raise RaiseEx('ValueError', 'bitarray length must be >= 0')
+            return BA([Seg(x.v, '?', None)] if x.v else [])     # bitarray(n): n uninitialised bits
     if isinstance(x, PBits):
         return BA([Seg(1, 'k', c) if c != '?' else Seg(1, '?', None) for c in x.pat])
     if isinstance(x, ListV):
@@ -343,6 +345,18 @@ def ba_methods(it, ba, a, inst):
     def m_init(it, args, kw, node):
         return K(None)
 
+    def m_setall(it, args, kw, node):
+        n_ = len(ba)
+        v_ = args[0]
+        if isinstance(v_, K):
+            ba.segs = []
+            ba._push(Seg(n_, 'k', ('1' if v_.v else '0') * n_))
+        else:
+            ba.segs = []
+            for _ in range(n_):
+                ba._push(Seg(1, '?', v_))
+        return K(None)
+
     def m_any(it, args, kw, node):
         if ba.known():
             return K('1' in ba.pattern())
@@ -350,7 +364,7 @@ def ba_methods(it, ba, a, inst):
 
     table = {'append': m_append, 'extend': m_extend, 'fill': m_fill, 'tobytes': m_tobytes, 'to01': m_to01,
              'frombytes': m_frombytes, 'copy': m_copy, 'pop': m_pop, '__len__': m_len, 'count': m_count,
-             '__delitem__': m_delitem, '__init__': m_init, 'any': m_any}
+             '__delitem__': m_delitem, '__init__': m_init, 'any': m_any, 'setall': m_setall}
     if a in table:
         return Native(table[a], 'bitarray.' + a)
     if a == '__new__':
@@ -1316,6 +1330,28 @@ def val_method(it, v, name, args, kw, node):
             return v
         if name == 'decode':
             return Term('decode', v)
+        if name in ('startswith', 'endswith') and v.view in ('str', 'bytes') and args:
+            try:
+                cands = to_const(args[0])
+            except NotConst:
+                cands = None
+            if cands is not None:
+                cands = list(cands) if isinstance(cands, tuple) else [cands]
+                unknown = False
+                for c in cands:
+                    pat = c if isinstance(c, str) else ''.join(format(x, '08b') for x in c)
+                    if v.view == 'str' and any(ch not in '01' for ch in pat):
+                        continue
+                    if len(pat) > len(v.pat):
+                        continue
+                    part = v.pat[:len(pat)] if name == 'startswith' else v.pat[len(v.pat) - len(pat):]
+                    if all(x == y for x, y in zip(part, pat)):
+                        return K(True)
+                    if all(x == y or x == '?' for x, y in zip(part, pat)):
+                        unknown = True
+                if not unknown:
+                    return K(False)
+                return Cond((name, repr(v), repr(cands)), True, f'{v.pat}.{name}({cands})')
     if isinstance(v, (K, PInt)) and name == 'to_bytes':
         names = ['length', 'byteorder']
         b = dict(zip(names, args))
@@ -1763,8 +1799,27 @@ def builtin(it, name, args, kw, n):
         return atom(f'{name}({", ".join(ps)})')
     if name in ('min', 'max') and len(args) == 1:
         items = it.iterate(args[0])
-        if items is not None and all(isinstance(x, K) for x in items) and items:
+        if items is not None and all(isinstance(x, K) for x in items) and items and kw.get('key') is None:
             return K((min if name == 'min' else max)(x.v for x in items))
+    if name in ('min', 'max') and args:
+        items = it.iterate(args[0]) if len(args) == 1 else list(args)
+        if items is None:
+            raise Fail(f'{name}() over an unknown iterable')
+        keyf = kw.get('key')
+        if keyf is not None and isinstance(keyf, K) and keyf.v is None:
+            keyf = None
+        if not items:
+            if 'default' in kw:
+                return kw['default']
+            raise RaiseEx('ValueError', f'{name}() arg is an empty sequence')
+        best = items[0]
+        bk = it.call(keyf, [best], {}, n) if keyf is not None else best
+        for x in items[1:]:
+            xk = it.call(keyf, [x], {}, n) if keyf is not None else x
+            better = it.cmp(ast.Lt() if name == 'min' else ast.Gt(), xk, bk, n)     # strict: the first of equal candidates stays
+            if it.truth(better, n):
+                best, bk = x, xk
+        return best
     if name == 'bool' and args:
         v = args[0]
         if isinstance(v, Cond):
@@ -1828,6 +1883,11 @@ def builtin(it, name, args, kw, n):
                 d.d[k_] = x
                 d.keyobj[k_] = K(k_)
             return d
+    if name in ('str.maketrans', 'bytes.maketrans', 'bytearray.maketrans') and all(isinstance(a, K) for a in args):
+        try:
+            return K((str if name.startswith('str') else bytes).maketrans(*[a.v for a in args]))
+        except (ValueError, TypeError) as e:
+            raise RaiseEx(type(e).__name__, 'maketrans')
     if name in ('dict.fromkeys', 'OrderedDict.fromkeys') and args:
         items = it.iterate(args[0])
         if items is None:
@@ -1935,6 +1995,24 @@ def builtin(it, name, args, kw, n):
             return v.cls
         if isinstance(v, K):
             return Builtin(type(v.v).__name__)
+        if isinstance(v, ListV):
+            return Builtin('tuple' if v.tup else 'list')
+        if isinstance(v, DictV):
+            return Builtin('dict')
+        if isinstance(v, SetV):
+            return Builtin('set')
+        if isinstance(v, PInt):
+            return Builtin('int')
+        if isinstance(v, PBits) and v.view in ('str', 'bytes'):
+            return Builtin(v.view)
+        if isinstance(v, Sym) and v.meta.get('ty') in ('bytes', 'str', 'int', 'bool', 'dict', 'list'):
+            return Builtin(v.meta['ty'])
+        if isinstance(v, Term) and v.op in ('cat', 'to_bytes', 'sha256', 'sha512', 'tobytes', 'fromhex', 'crc', 'bslice'):
+            return Builtin('bytes')
+        if isinstance(v, Term) and v.op in ('fstr', 'hex', 'decode', 'strfmt'):
+            return Builtin('str')
+        if type(v).__name__ == 'Rope':
+            return Builtin('bytes')
         return Term('type', v)
     if name == 'print':
         return K(None)
